@@ -327,6 +327,10 @@ class PartitioningPatternEncoder(PatternEncoderBase):
         if any(n.conns != [1] and n.conns != [0, 1] for n in tgt):
             return False
 
+        # All targets should be of the same kind (the encoding decides "optional" from the first target only)
+        if any(n.conns != tgt[0].conns for n in tgt):
+            return False
+
         # Check if there are not too many connections asked for
         n_min_total = src[0].min_conns*len(src)
         if n_min_total > len(tgt):
